@@ -296,10 +296,10 @@ def analyse_shape(L, shape):
         # debug symbols (C15-L): every FUNC/PROC once, ascending, with the offset of its first instruction
         fp = [(i, a) for i, (k, mn, a) in enumerate(shape) if k in (K_FUNC, K_PROC)]
         dbg = parse_debug(d.debug)
-        if dbg is None: findings.append(('debug', "debug section does not parse", {}))
+        if dbg is None: ok_, m = E.sat(st); findings.append(('debug', "debug section does not parse", vals_of(m)))
         else:
             want = [(NAMES[a], [p for (li, p) in d.addr.get(a, []) if li == i][0]) for i, a in fp]
-            if dbg != want: findings.append(('debug', f"symbol table {dbg} != procedures/functions with the byte offset of their first instruction {want}", {}))
+            if dbg != want: ok_, m = E.sat(st); findings.append(('debug', f"symbol table {dbg} != procedures/functions with the byte offset of their first instruction {want}", vals_of(m)))
             elif [o for _, o in dbg] != sorted(o for _, o in dbg): findings.append(('debug', f"symbol table not ascending: {dbg}", {}))
         for cat, what, c in claims:
             stats['obligations'] += 1
